@@ -23,6 +23,8 @@ def shadow_max(f):
 def biggest(a, b): return max(a, b)
 def smallest(a, b): return min(a, b)
 def read_max(): return max
+def read_group(): return ExceptionGroup
+def read_anext(): return anext
 '''
 _BC = None       # built with the dict-version cache
 _BU = None       # default build (no cache on CPython >= 3.12)
@@ -224,6 +226,13 @@ if M.biggest(1, 2) != 2: bad.append(('biggest before', M.biggest(1, 2)))
 M.shadow_max(fake)
 if M.read_max() is not fake: bad.append(('read_max',))
 if M.biggest(1, 2) != 'fake': bad.append(('biggest after shadow', M.biggest(1, 2)))
+import builtins
+for nm, rd in (('ExceptionGroup', M.read_group), ('anext', M.read_anext)):
+    if rd() is not getattr(builtins, nm): bad.append((nm, 'before shadowing'))
+    setattr(M, nm, x1)
+    if rd() is not x1: bad.append((nm, 'shadowed through the module namespace', rd()))
+    delattr(M, nm)
+    if rd() is not getattr(builtins, nm): bad.append((nm, 'after deleting the shadow'))
 print('REPLAY', bad[:5])
 print('REPLAY-REPRODUCED' if bad else 'REPLAY-HOLDS')
 '''
@@ -263,6 +272,7 @@ def run(rep, tier, only=None):
     _BU = harness.build_template('c26u', TEMPLATE)
     _BC = harness.build_template('c26c', TEMPLATE, defines=['CYTHON_USE_DICT_VERSIONS=1'])
     jobs = [('cached', 'read_x'), ('cached', 'read_max'), ('uncached', 'read_x'), ('uncached', 'read_max'),
+            ('cached', 'read_group'), ('uncached', 'read_group'), ('cached', 'read_anext'), ('uncached', 'read_anext'),
             ('rebind', 'biggest'), ('rebind', 'smallest')]
     if only:
         jobs = [j for j in jobs if only in j[0] or only in j[1]]
@@ -273,7 +283,7 @@ def run(rep, tier, only=None):
                    'any dict version, name bound or not, builtin or not: result correct and invariant re-established.  By induction this covers every history of assignments, deletions '
                    'and re-creations, given that CPython changes ma_version_tag on every mutation of the module dict (its documented contract, trusted)',
                    'default arm: every read consults the dict; outside: attribute-style access to module globals from other modules, class-scope lookups, the builtins module being patched '
-                   '(the builtin lookup itself is CPython\'s), lenient-mode compilation, builtins the module never binds (resolved once at import: documented cache_builtins behaviour)']
+                   '(the builtin lookup itself is CPython\'s), lenient-mode compilation, cacheable builtins the module never binds (resolved once at import: documented cache_builtins behaviour; the never-cached builtins ExceptionGroup and anext ARE covered: read_group / read_anext)']
     rep.assume('PyDictObject layout of CPython 3.12 (ma_version_tag at offset 24)', 'reference counts ignored (C35)')
     with mp.Pool(min(8, os.cpu_count() or 4), initializer=_init, initargs=(_BC, _BU)) as pool:
         results = pool.map(worker, jobs, chunksize=1)
